@@ -1,5 +1,6 @@
 import re
 from html import _replace_charref  # type: ignore[attr-defined]
+from html.entities import html5
 from typing import Match
 from urllib.parse import quote
 
@@ -65,7 +66,15 @@ def unescape(s: str) -> str:
     """
     if "&" not in s:
         return s
-    return _charref_re.sub(_replace_charref, s)
+    return _charref_re.sub(_replace_known_charref, s)
+
+
+def _replace_known_charref(m: Match[str]) -> str:
+    ref = m.group(1)
+    if ref[0] != "#" and ref not in html5:
+        # not an entity name: `_replace_charref` would decode a legacy prefix of it ("&copy_b;")
+        return m.group(0)
+    return str(_replace_charref(m))
 
 
 _striptags_re = re.compile(r"(<!--.*?-->|<[^>]*>)")
